@@ -566,8 +566,10 @@ template <class T,int index>
 static FixedArray<T>
 QuatArray_get(FixedArray<IMATH_NAMESPACE::Quat<T> > &qa)
 {
-    return FixedArray<T>(&(qa.unchecked_index(0).r) + index,
-                         qa.len(), 4*qa.stride(), qa.handle(), qa.writable());
+    FixedArray<T> r(&(qa.unchecked_direct_index(0).r) + index,
+                    qa.len(), 4*qa.stride(), qa.handle(), qa.writable());
+    r.shareMaskOf (qa);
+    return r;
 }
 
 template <class T>
